@@ -104,6 +104,13 @@ def rule_F2(ctx):
             r.ok(f"{caller.key}:{norm(cs.node)}")
         if not names:
             continue
+        # plain aliases of a tainted name are tainted too
+        for _ in range(2):
+            for x in own_walk(caller.node):
+                if isinstance(x, ast.Assign) and isinstance(x.value, ast.Name) and x.value.id in names:
+                    for t in x.targets:
+                        if isinstance(t, ast.Name):
+                            names.setdefault(t.id, names[x.value.id])
         for x in own_walk(caller.node):
             bad = None
             if isinstance(x, ast.Call) and isinstance(x.func, ast.Attribute) and isinstance(x.func.value, ast.Name) \
@@ -111,8 +118,8 @@ def rule_F2(ctx):
                 bad = (x.func.value.id, x)
             elif isinstance(x, ast.AugAssign) and isinstance(x.target, ast.Name) and x.target.id in names:
                 # rebinding a str/int is harmless; lists/BitStores would be mutated in place
-                t = fa.expr_type.get(id(x.value), frozenset())
-                if not (t and t <= {'str', 'int', 'float', 'bool', 'bytes'}):
+                t = fa.final_env.get(x.target.id, frozenset())
+                if not (t and t <= {'str', 'int', 'float', 'bool', 'bytes', 'tuple'}):
                     bad = (x.target.id, x)
             elif isinstance(x, (ast.Subscript,)) and isinstance(x.ctx, (ast.Store, ast.Del)) and isinstance(x.value, ast.Name) \
                     and x.value.id in names:
